@@ -595,7 +595,8 @@ static int nobj(int kind) { return kind == 0 ? W.nres : kind == 1 ? W.npool : ki
 static void rec_finish(int kind, int idx)
 {
     /* the recording window [t0,t1] is closed: compare the time-weighted mean with the exact average */
-    const double T = W.rec[kind][idx].t1 - W.rec[kind][idx].t0;
+    /* several windows: the average is over the time during which recording was on (a gap is not recorded, whatever happened in it) */
+    const double T = W.rec[kind][idx].on_time;
     const struct cmb_timeseries *ts = history_of(kind, idx);
     const uint64_t n = cmb_timeseries_count(ts);
     if (n < 2) { viol("C14", "too-few-samples", "recorded history has %" PRIu64 " samples after start and stop", n); return; }
@@ -613,8 +614,8 @@ static void rec_finish(int kind, int idx)
     for (uint64_t i = 0; i < n; i++) if (fabs(ts->ds.xa[i]) > xmax) xmax = fabs(ts->ds.xa[i]);
     const double tol = 1e-9 * (fabs(exact) > 1.0 ? fabs(exact) : 1.0) + 1e-12 * xmax;
     if (!(fabs(mean - exact) <= tol))
-        viol("C14", "time-average", "kind %d object %d: time-weighted mean %.12g differs from the exact average %.12g over [%g,%g]", kind, idx, mean, exact,
-             W.rec[kind][idx].t0, W.rec[kind][idx].t1);
+        viol("C14", W.rec[kind][idx].windows > 1 ? "time-average/several-windows" : "time-average", "kind %d object %d: time-weighted mean %.12g differs from the exact average %.12g over [%g,%g] (%d recording window(s), %g time units recorded)", kind, idx, mean, exact,
+             W.rec[kind][idx].t0, W.rec[kind][idx].t1, W.rec[kind][idx].windows, T);
     PROBE("c14.mean_compared");
     if (W.rec[kind][idx].changes >= 3) PROBE("c14.window_with_ge3_changes");
     if (n > 1024) PROBE("c14.history_gt_1024_samples");
@@ -636,11 +637,13 @@ void mon_record(int kind, int idx, bool on)
     idx %= nobj(kind);
     rec_catch_up(kind, idx);
     if (on) {
-        if (W.rec[kind][idx].ever) return;             /* one window per object per run */
+        if (W.rec[kind][idx].on || W.rec[kind][idx].windows >= 3) return;     /* at most three recording windows per object per run */
+        if (!W.rec[kind][idx].ever) { W.rec[kind][idx].t0 = tnow(); W.rec[kind][idx].integral = 0.0; W.rec[kind][idx].on_time = 0.0; }
+        else PROBE("c14.recording_restarted");
         W.rec[kind][idx].ever = W.rec[kind][idx].on = true;
-        W.rec[kind][idx].t0 = W.rec[kind][idx].last_t = tnow();
+        W.rec[kind][idx].windows++;
+        W.rec[kind][idx].win_t0 = W.rec[kind][idx].last_t = tnow();
         W.rec[kind][idx].last_v = (double)true_state(kind, idx);
-        W.rec[kind][idx].integral = 0.0;
         TR2("recon", kind, idx);
         switch (kind) {
             case 0: cmb_resource_start_recording(W.res[idx]); break;
@@ -653,6 +656,7 @@ void mon_record(int kind, int idx, bool on)
         if (!W.rec[kind][idx].on) return;
         W.rec[kind][idx].on = false; W.rec[kind][idx].done = true;
         W.rec[kind][idx].t1 = tnow();
+        W.rec[kind][idx].on_time += tnow() - W.rec[kind][idx].win_t0;
         W.rec[kind][idx].integral += W.rec[kind][idx].last_v * (tnow() - W.rec[kind][idx].last_t);
         TR2("recoff", kind, idx);
         switch (kind) {
@@ -840,6 +844,8 @@ void mon_after_event(void)
     /* C09: state of ended processes right after the event in which they ended */
     for (int i = 0; i < W.np; i++) {
         proc *pr = &PR[i];
+        if (pr->created && (cmb_process_context(pr->pp) != (void *)pr || cmb_process_priority(pr->pp) != pr->pp->priority || cmb_process_name(pr->pp)[0] != 'P'))
+            viol("C03", "start-args", "process %d: the context / priority / name queries do not describe it", i);
         if (pr->started && !pr->finished && pr->ran_this_event && !pr->start_pending && cmb_process_exit_value(pr->pp) != NULL)
             viol("C09", "exit-value", "process %d has not ended but reports exit value %p", i, cmb_process_exit_value(pr->pp));
         if (!pr->finished || pr->end_seq != ev_seq) continue;
